@@ -213,6 +213,29 @@ def run(ctx):
                     texts[rec["id"]] = text
                     k += 1
                     ctx.evaluations += 1
+    # directed: two sections whose bodies are RELATED the way the difficulties of one song are - the same phrases but for the
+    # last one (one list a proper prefix of the other), the same notes but for the last, the same body plus one line, the same
+    # body with one length changed: whatever one section has in common with another, each is built from its own lines
+    full = ["0 = S 2 384", "0 = N 0 0", "96 = N 1 0", "768 = S 2 384", "800 = N 2 96", "1920 = S 2 768", "2000 = N 3 0", "2100 = E solo"]
+    related = [[ln for ln in full if ln != "1920 = S 2 768"],                    # phrases: a proper prefix
+               [ln for ln in full if not ln.startswith(("768 = S", "1920 = S"))],  # ... a shorter prefix
+               full[:-2],                                                         # notes and events: a prefix
+               full + ["2500 = S 2 10"], full + ["2500 = N 4 0"],                 # one more line
+               [ln.replace("768 = S 2 384", "768 = S 2 385") for ln in full],     # one length changed
+               [ln for ln in full if " = N " not in ln], list(full)]              # phrases only; identical
+    k = 0
+    for a_h, b_h in (("ExpertSingle", "HardSingle"), ("ExpertDrums", "EasyDrums"), ("ExpertSingle", "ExpertDoubleBass")):
+        for rel in related:
+            for a_body, b_body in ((full, rel), (rel, full)):
+                for order in ([a_h, b_h], [b_h, a_h]):
+                    for want in (None, [b_h], [a_h, b_h]):
+                        bodies = {a_h: a_body, b_h: b_body}
+                        ref_bodies = {a_h: ["400 = N 3 0", "500 = E x", "600 = S 2 5"], b_h: b_body}
+                        rec, text = record_from_texts(f"rel{k}", build(order, bodies), build(order, ref_bodies), order, {a_h}, want, forms[k % 3])
+                        recs.append(rec)
+                        texts[rec["id"]] = text
+                        k += 1
+                        ctx.evaluations += 1
     by_id = {x["id"]: x for x in recs}
     for rid, p, clause in ctx.validate(recs):
         rec = by_id[rid]
